@@ -8,6 +8,16 @@ PY = '/venv/bin/python'
 
 # id -> (engine, category, technique, text, note, design_ref)
 CHECKS = {
+    'C15': ('E-enum', 'exploration',
+            'deviation-bounded exhaustive enumeration (every single mutation; thorough: every pair) of a mutation grammar over a corpus of valid requests on the real service',
+            'Corpus of 62 valid requests (one per route x method x body/query format) in three states (empty, populated flat, '
+            'nested with a nested sharing provider); every mutation operator (junk values up to 64-bit integers, NaN, unicode, '
+            'control characters, lone surrogates, delete/add/duplicate keys, query/path/header/envelope and raw-body damage) is '
+            'applied at every position: depth 1 complete in quick (about 109k requests), all pairs within a request part in '
+            'thorough (about 800k). Oracle: the WSGI call returns, status < 500, 4xx bodies follow the errors guideline (code from '
+            '1.23), and 400/404/405/406/415 leave the database unchanged.',
+            'SQLite stands in for the DBMS (its driver-side integer range check is counted, not judged); rows in projects/users/consumer_types are exempt from the unchanged-state rule as C04 allows',
+            'DESIGN.md 5.C15'),
     'C05': ('E-conc', 'model_checking',
             'stateless exploration of ALL transaction-level interleavings of concurrent requests on the real service, with state matching',
             'Three start states x every unordered pair (with repetition) of 14 provider-writing operations, generation-'
